@@ -272,6 +272,52 @@ func c01Case(r *obs.Run, i int) {
 		return
 	}
 
+	// what a writer emits for a record does not depend on the records it wrote before: each record written by a writer of
+	// its own gives the same bytes, and so does a list in which the kinds of source (plain, quality-carrying) and the
+	// quality encodings change from record to record
+	{
+		var alone bytes.Buffer
+		for k := range recs {
+			w1, d1 := newWriter(&alone)
+			if _, err := w1(srcs[k]); err != nil {
+				fail("write-error", fmt.Sprintf("Write of record %d by a writer of its own returned %v", k, err))
+				return
+			}
+			d1()
+		}
+		if !bytes.Equal(alone.Bytes(), data) {
+			fail("writer-keeps-state", fmt.Sprintf("the %d records written by one writer give %d bytes, written by a writer each %d bytes (first difference at byte %d)", len(recs), len(data), alone.Len(), firstDiff(alone.String(), string(data))))
+			return
+		}
+		r.Count("lists_also_written_with_a_writer_per_record", 1)
+		if isFastq && quality && !asRows && len(recs) > 1 && rng.Intn(2) == 0 {
+			encs := []alphabet.Encoding{alphabet.Sanger, alphabet.Illumina1_3, alphabet.Illumina1_5, alphabet.Illumina1_8, alphabet.Illumina1_9}
+			mixed := make([]seq.Sequence, len(recs))
+			for k, rec := range recs {
+				mixed[k] = rec.toSeq(al.a, encs[rng.Intn(len(encs))], rng.Intn(3) != 0)
+			}
+			var one, each bytes.Buffer
+			w1, d1 := newWriter(&one)
+			for k := range mixed {
+				if _, err := w1(mixed[k]); err != nil {
+					fail("write-error", fmt.Sprintf("Write of record %d of a list of mixed source kinds and encodings returned %v", k, err))
+					return
+				}
+				w2, d2 := newWriter(&each)
+				w2(mixed[k])
+				d2()
+			}
+			d1()
+			if !bytes.Equal(one.Bytes(), each.Bytes()) {
+				w["mixed_list_one_writer"] = one.String()
+				w["mixed_list_writer_per_record"] = each.String()
+				fail("writer-keeps-state", fmt.Sprintf("a list whose records differ in source kind and quality encoding: one writer gives %d bytes, a writer per record %d bytes (first difference at byte %d)", one.Len(), each.Len(), firstDiff(one.String(), each.String())))
+				return
+			}
+			r.Count("lists_of_mixed_source_kinds_and_encodings", 1)
+		}
+	}
+
 	if !unchanged("after the first pass") {
 		return
 	}
@@ -771,3 +817,4 @@ func c01ReadersSideBySide(r *obs.Run, al alphabet.Alphabet, isFastq bool, recs [
 	r.Count("round_robin_reader_sets_on_one_template", 1)
 	return true
 }
+
